@@ -11,12 +11,24 @@ from fractions import Fraction as F
 import numpy as np
 
 import vlib
-from props.c01 import pre  # noqa: F401  (same generated file)
+from props.c01 import pre as _pre_pipeline  # (same generated file as C01)
+
+
+def pre(res):
+    _pre_pipeline(res)
+    from gen import gen_follow
+
+    try:
+        changed = gen_follow.main()
+        res.extra.setdefault("generated", {})["follow"] = {"file": "lean/HypnoModel/Gen/Follow.lean", "changed_since_last_run": bool(changed)}
+    except Exception as e:  # fail closed
+        res.extra.setdefault("generated", {})["follow_error"] = "%s: %s" % (type(e).__name__, e)
+        res.gen_error = "%s: %s" % (type(e).__name__, e)
 
 
 def tag(sp):
     keep = ("nx_inter_sep", "psinorm_sol", "psinorm_pf", "psinorm_core", "number_of_processors", "psi_interpolation_method", "follow_perpendicular_rtol")
-    return "%s %s%s" % (sp.get("geometry", "circular"), {k: v for k, v in sp["options"].items() if k in keep}, " psi_sign=-1" if sp.get("psi_sign", 1.0) < 0 else "")
+    return "%s %s%s" % (sp.get("geometry", "circular"), {k: v for k, v in sp["options"].items() if k in keep}, (" psi x %g" % sp["psi_sign"]) if sp.get("psi_sign", 1.0) != 1.0 else "")
 
 
 def corr_follow(res, tier):
@@ -109,7 +121,10 @@ def specs_for0(tier):
          gridlab.tokamak_spec("udn2", options={"nx_inter_sep": 2, "psinorm_sol": 1.3, "psinorm_pf": 0.9}, extract=ex),
          gridlab.tokamak_spec("ldn", options={"nx_inter_sep": 1, "psinorm_sol": 1.1, "psinorm_pf": 0.95}, extract=ex),
          # tolerances tighter than the defaults: every radial line must honour them, whichever branch of followPerpendicular it takes
-         gridlab.tokamak_spec("lsn", options={"follow_perpendicular_rtol": 1e-11, "follow_perpendicular_atol": 1e-11}, extract=ex)]
+         gridlab.tokamak_spec("lsn", options={"follow_perpendicular_rtol": 1e-11, "follow_perpendicular_atol": 1e-11}, extract=ex),
+         # a weak poloidal field (flux in mWb, TORPEX-like): 1/|grad psi| is a thousand times larger, nothing in the property depends on the
+         # unit of psi (the X-point search needs its absolute |Bp|^2 tolerance scaled with it)
+         gridlab.tokamak_spec("lsn", options={"xpoint_refine_atol": 1e-16}, psi_sign=1.0e-3, extract=ex)]
     if tier == "thorough":
         S += [gridlab.tokamak_spec(g, extract=ex) for g in ("usn", "cdn", "udn")]
         S.append(gridlab.tokamak_spec("lsn", options={"psinorm_core": 0.8, "psinorm_sol": 1.15, "psinorm_pf": 0.85, "nx_core": 3}, extract=ex))
